@@ -66,6 +66,57 @@ def run(chk, repo, tier):
 
     from .extra_rules import vegaflux_rule
     vegaflux_rule(chk, repo, 'C14-h')
+    # the magnitude scaling E0*(M/M0) multiplies the zero point by a ratio of exitances: that ratio depends on the flux unit
+    # (photon and energy units differ by a factor of the wavelength), so both exitances are computed in the flux unit the
+    # zero point is asked for in
+    fv = repo.func('radiometry.Blackbody.vegamag')
+    zp_units, ex_units = [], []
+    for s_ in bind.sites(repo, fv):
+        if s_.callee.key not in ('radiometry.vegaflux', 'radiometry.planck_exitance'):
+            continue
+        node_ = s_.binding.get('valueunit')
+        if node_ is None:
+            dfl = {nm: d for nm, d, k in s_.callee.params()}.get('valueunit')
+            unit_ = dfl.value if isinstance(dfl, ast.Constant) else None
+        else:
+            unit_ = node_.value if isinstance(node_, ast.Constant) else None       # handed through a variable: not followed
+        (zp_units if s_.callee.key.endswith('vegaflux') else ex_units).append((unit_, s_.loc()))
+    if zp_units and ex_units:
+        zu = {u for u, _ in zp_units}
+        off = [f'planck_exitance in {u!r} at {l}' for u, l in ex_units if u not in zu]
+        chk.ob('C14-h', 'U-units', fv.key, 'the exitance ratio is formed in the flux unit of the Vega zero point',
+               (not off) if len(zu) == 1 and None not in zu and all(u is not None for u, _ in ex_units) else None,
+               ('; '.join(off) + f' while the zero point is in {sorted(zu)[0]!r}: the stored spectrum is tilted by wave0/wave') if off else '',
+               fv.loc())
+    else:
+        chk.undecided('C14-h', 'U-units', fv.key, 'the exitance ratio is formed in the flux unit of the Vega zero point',
+                      'undecided: vegaflux / planck_exitance calls not found in vegamag', fv.loc())
+    # a spectrum read from a file is labelled with the units the caller states: Spectrum.to converts by the labels, so a
+    # dropped value unit turns a density into a unitless curve (its integral changes with the wavelength unit)
+    if repo.has_func('radiometry.Spectrum.from_csv'):
+        fc_ = repo.func('radiometry.Spectrum.from_csv')
+        init_ = repo.cls('radiometry.Spectrum').find_method('__init__')
+        okc_, detc_, nc_ = True, '', 0
+        for node_ in ast.walk(fc_.node):
+            if isinstance(node_, ast.Call) and isinstance(node_.func, ast.Name) and node_.func.id in ('cls', 'Spectrum'):
+                try:
+                    site_ = bind._site(repo, fc_, node_, init_, True)
+                except Exception:
+                    continue
+                nc_ += 1
+                for unit_ in ('waveunit', 'valueunit'):
+                    if unit_ not in fc_.param_names():
+                        continue
+                    got_ = site_.binding.get(unit_)
+                    if not (isinstance(got_, ast.Name) and got_.id == unit_) and not site_.star:
+                        okc_ = False
+                        detc_ = f'the constructor call at {fc_.loc(node_)} ' + \
+                            (f'passes {ast.unparse(got_)} as {unit_}' if got_ is not None else f'does not pass {unit_}: the spectrum is built '
+                             f'with the default {unit_} whatever the caller stated')
+        chk.ob('C14-g', 'B5-default', fc_.key, 'from_csv labels the spectrum with the waveunit and valueunit it was given',
+               okc_ if nc_ else None, detc_, fc_.loc())
+    from .c15 import quadrature_cover_rule as _qcr
+    _qcr(chk, repo, repo.func('radiometry.Spectrum.integrate'), 'C14-c')
     # ---------------------------------------------------------------- C14-a
     import sys as _sys0
     _run_nested(_sys0.modules[__name__], chk, repo, tier, 'wave_unit_rules')
